@@ -7,7 +7,7 @@
     steps completed: file-system calls and SQL statements, see DbFiles.v).
     Proofs are in DbFilesFacts.v; the instance obligation is Inst_Schemas.v. *)
 From Coq Require Import ZArith String List.
-From MW Require Import Sql DbFiles DbFilesFacts Inst_Schemas.
+From MW Require Import Sql DbFiles DbFilesFacts Inst_Schemas DbFilesMore.
 From MWGen Require Import GenParams GenSchemas.
 Import ListNotations.
 Open Scope Z_scope.
@@ -164,3 +164,84 @@ Example C19_nonvacuous :
   length (objects (complete nat O gen_channel_schema gen_channel_target)) = n /\
   fst (run_all m (run_prefix (n + 10) m [])) = inl (complete nat O gen_channel_schema gen_channel_target).
 Proof. vm_compute. repeat split; auto. Qed.
+
+(** * every input, repeated kills, frame conditions (quoted by type from DbFilesMore.v) *)
+
+(** exhaustiveness: whatever is at the channel path, exactly one of the characterised cases applies (missing / rejected / current / too old; never an upgrade) *)
+Theorem C19_file_cases_channel_all : ltac:(let t := type of DbFilesMore.C19_file_cases_channel in exact t).
+Proof. exact DbFilesMore.C19_file_cases_channel. Qed.
+Check C19_file_cases_channel_all.
+Print Assumptions C19_file_cases_channel_all.
+
+(** the same for the usage path; an older version with an upgrader splits into exactly one of: standard (the C20 theorems), the script fails, a non-standard schema on which the script still runs *)
+Theorem C19_file_cases_usage_all : ltac:(let t := type of DbFilesMore.C19_file_cases_usage in exact t).
+Proof. exact DbFilesMore.C19_file_cases_usage. Qed.
+Check C19_file_cases_usage_all.
+Print Assumptions C19_file_cases_usage_all.
+
+(** for EVERY directory content and every kill point: other paths untouched; the main file unchanged, or absent-then-complete *)
+Theorem C19_all_inputs_channel_ : ltac:(let t := type of DbFilesMore.C19_all_inputs_channel in exact t).
+Proof. exact DbFilesMore.C19_all_inputs_channel. Qed.
+Check C19_all_inputs_channel_.
+Print Assumptions C19_all_inputs_channel_.
+
+(** (usage path: ... or upgraded with the same payload) *)
+Theorem C19_all_inputs_usage_ : ltac:(let t := type of DbFilesMore.C19_all_inputs_usage in exact t).
+Proof. exact DbFilesMore.C19_all_inputs_usage. Qed.
+Check C19_all_inputs_usage_.
+Print Assumptions C19_all_inputs_usage_.
+
+(** any NUMBER of starts killed at any points, then an uninterrupted start: the fresh database; nothing else touched *)
+Theorem C19_create_retry_n_ : ltac:(let t := type of DbFilesMore.C19_create_retry_n in exact t).
+Proof. exact DbFilesMore.C19_create_retry_n. Qed.
+Check C19_create_retry_n_.
+Print Assumptions C19_create_retry_n_.
+
+(** create-only entry points: the fresh database, or `already exists` when a killed start had got as far as the rename *)
+Theorem C19_create_only_retry_n_ : ltac:(let t := type of DbFilesMore.C19_create_only_retry_n in exact t).
+Proof. exact DbFilesMore.C19_create_only_retry_n. Qed.
+Check C19_create_only_retry_n_.
+Print Assumptions C19_create_only_retry_n_.
+
+(** frame under crash: a creation touches only the main path and its own temporary file, at every prefix *)
+Theorem C19_create_crash_frame_ : ltac:(let t := type of DbFilesMore.C19_create_crash_frame in exact t).
+Proof. exact DbFilesMore.C19_create_crash_frame. Qed.
+Check C19_create_crash_frame_.
+Print Assumptions C19_create_crash_frame_.
+
+(** the states a killed creation can leave: nothing at the path (only the temp file differs) or the complete database *)
+Theorem C19_create_crash_states_ : ltac:(let t := type of DbFilesMore.C19_create_crash_states in exact t).
+Proof. exact DbFilesMore.C19_create_crash_states. Qed.
+Check C19_create_crash_states_.
+Print Assumptions C19_create_crash_states_.
+
+(** temporary files of earlier killed starts are never touched ... *)
+Theorem C19_stray_tmp_untouched_ : ltac:(let t := type of DbFilesMore.C19_stray_tmp_untouched in exact t).
+Proof. exact DbFilesMore.C19_stray_tmp_untouched. Qed.
+Check C19_stray_tmp_untouched_.
+Print Assumptions C19_stray_tmp_untouched_.
+
+(** ... and never influence a later start *)
+Theorem C19_stray_tmp_no_influence_ : ltac:(let t := type of DbFilesMore.C19_stray_tmp_no_influence in exact t).
+Proof. exact DbFilesMore.C19_stray_tmp_no_influence. Qed.
+Check C19_stray_tmp_no_influence_.
+Print Assumptions C19_stray_tmp_no_influence_.
+
+(** why create-only has two outcomes after a kill *)
+Theorem C19_create_only_retry_succeeds_refuted : ltac:(let t := type of DbFilesMore.create_only_retry_succeeds_refuted in exact t).
+Proof. exact DbFilesMore.create_only_retry_succeeds_refuted. Qed.
+Check C19_create_only_retry_succeeds_refuted.
+Print Assumptions C19_create_only_retry_succeeds_refuted.
+
+(** non-vacuity: a directory content for each of the ten classifications *)
+Theorem C19_file_cases_nonvacuous : ltac:(let t := type of DbFilesMore.file_cases_nonvacuous in exact t).
+Proof. exact DbFilesMore.file_cases_nonvacuous. Qed.
+Check C19_file_cases_nonvacuous.
+Print Assumptions C19_file_cases_nonvacuous.
+
+(** non-vacuity: several killed creations (each leaves its temp file), then success *)
+Theorem C19_create_retry_n_nonvacuous : ltac:(let t := type of DbFilesMore.create_retry_n_nonvacuous in exact t).
+Proof. exact DbFilesMore.create_retry_n_nonvacuous. Qed.
+Check C19_create_retry_n_nonvacuous.
+Print Assumptions C19_create_retry_n_nonvacuous.
+
